@@ -24,5 +24,5 @@ def build(bin_step, py_step, miri_step, fuzz_step):
     S["C10"] = [py_step("gen_chain"), py_step("gen_chain", release=True)]
     S["C17"] = [py_step("gen_reject"), py_step("gen_reject", release=True)]
     S["C18"] = [py_step("gen_parser_method"), py_step("gen_parser_method", tiers=("thorough",), release=True)]
-    S["C01"] = [bin_step("c01"), bin_step("c01", features=("konst_debug",)), bin_step("c01", release=True), bin_step("c11", prop="C01"), py_step("gen_const"), py_step("gen_const", release=True), py_step("gen_closure_exits"), py_step("gen_closure_exits", tiers=("thorough",), release=True), py_step("gen_destructure"), py_step("gen_destructure", miri=True, only_packed=True), miri_step("c01"), miri_step("c11", tiers=("thorough",))]
+    S["C01"] = [bin_step("c01"), bin_step("c01", features=("konst_debug",)), bin_step("c01", release=True), bin_step("c11", prop="C01"), py_step("gen_const"), py_step("gen_const", release=True), py_step("gen_closure_exits"), py_step("gen_closure_exits", tiers=("thorough",), release=True), py_step("gen_destructure"), py_step("gen_destructure", miri=True, only_packed=True), py_step("gen_reject"), miri_step("c01"), miri_step("c11", tiers=("thorough",))]
     return S
